@@ -72,6 +72,31 @@ theorem toDec_lt128 (n : Nat) : ∀ d ∈ toDec n, d < 128 := by
   simp [isDigit] at this
   omega
 
+theorem toDecAux_length_le (f : Nat) : ∀ (k n : Nat) (acc : PStr), n < 10 ^ (k + 1) →
+    (toDecAux f n acc).length ≤ acc.length + (k + 1) := by
+  induction f with
+  | zero => intro k n acc _; simp [toDecAux]
+  | succ f ih =>
+    intro k n acc h
+    unfold toDecAux
+    split
+    · simp
+    · rename_i h10
+      cases k with
+      | zero => simp at h; omega
+      | succ k =>
+        have : n / 10 < 10 ^ (k + 1) := by
+          have : 10 ^ (k + 1 + 1) = 10 * 10 ^ (k + 1) := by rw [Nat.pow_succ]; omega
+          omega
+        have := ih k (n / 10) ((48 + n % 10) :: acc) this
+        simp only [List.length_cons] at this
+        omega
+
+/-- a reference to a code point of the Unicode range has at most 7 digits: `&#1114111;` is the longest -/
+theorem toDec_length_le (n : Nat) (h : n < 0x110000) : (toDec n).length ≤ 7 := by
+  have := toDecAux_length_le (n + 1) 6 n [] (by simp; omega)
+  simpa [toDec] using this
+
 /-! ### xmlcharrefreplace -/
 
 theorem xcr_append (C : Codec) (a b : PStr) :
@@ -140,6 +165,82 @@ theorem firstBad_some (C : Codec) : ∀ (s : PStr) (i : Nat), (∃ c ∈ s, C.ca
       rcases List.mem_cons.mp hx with rfl | hx
       · rw [hc] at hxe; cases hxe
       · exact ih (i + 1) ⟨x, hx, hxe⟩
+
+/-! ### the other error handlers -/
+
+theorem handled_xcr (C : Codec) (s : PStr) : handled C .xmlcharrefreplace s = xmlcharrefreplace C s := by
+  simp only [handled, xmlcharrefreplace, replacementFor, Option.getD_some]
+  congr 1
+
+theorem hexDigit_lt128 (d : Nat) (h : d < 16) : hexDigit d < 128 := by
+  unfold hexDigit; split <;> omega
+
+theorem toHexFixed_lt128 (w : Nat) : ∀ (n : Nat), ∀ d ∈ toHexFixed w n, d < 128 := by
+  induction w with
+  | zero => intro n d hd; simp [toHexFixed] at hd
+  | succ w ih =>
+    intro n d hd
+    simp only [toHexFixed, List.mem_append, List.mem_singleton] at hd
+    rcases hd with hd | rfl
+    · exact ih _ d hd
+    · exact hexDigit_lt128 _ (Nat.mod_lt _ (by omega))
+
+theorem backslashEscape_lt128 (c : Nat) : ∀ d ∈ backslashEscape c, d < 128 := by
+  intro d hd
+  unfold backslashEscape at hd
+  split at hd
+  · simp only [List.mem_append, List.mem_cons, List.not_mem_nil, or_false] at hd
+    rcases hd with (rfl | rfl) | hd
+    · omega
+    · omega
+    · exact toHexFixed_lt128 _ _ d hd
+  · split at hd
+    · simp only [List.mem_append, List.mem_cons, List.not_mem_nil, or_false] at hd
+      rcases hd with (rfl | rfl) | hd
+      · omega
+      · omega
+      · exact toHexFixed_lt128 _ _ d hd
+    · simp only [List.mem_append, List.mem_cons, List.not_mem_nil, or_false] at hd
+      rcases hd with (rfl | rfl) | hd
+      · omega
+      · omega
+      · exact toHexFixed_lt128 _ _ d hd
+
+theorem replacement_lt128 (h : Handler) (c : Nat) : ∀ d ∈ (replacementFor h c).getD [], d < 128 := by
+  intro d hd
+  cases h with
+  | strict => simp [replacementFor] at hd
+  | ignore => simp [replacementFor] at hd
+  | replace => simp [replacementFor] at hd; omega
+  | xmlcharrefreplace => exact charref_lt128 c d (by simpa [replacementFor] using hd)
+  | backslashreplace => exact backslashEscape_lt128 c d (by simpa [replacementFor] using hd)
+
+/-- whatever a handler substitutes is ASCII, so the handled string is encodable as soon as ASCII is -/
+theorem handled_encodable (C : Codec) (hA : C.AsciiOK) (h : Handler) (s : PStr) : C.Encodable (handled C h s) := by
+  intro d hd
+  simp only [handled, List.mem_flatMap] at hd
+  obtain ⟨c, _, hd⟩ := hd
+  split at hd
+  · simp at hd; subst hd; assumption
+  · exact hA d (replacement_lt128 h c d hd)
+
+theorem pyEncode_nonstrict (C : Codec) (hA : C.AsciiOK) (h : Handler) (hs : h ≠ .strict) (s : PStr) :
+    pyEncode C h s = .bytes (C.enc (handled C h s)) := by
+  cases h with
+  | strict => exact absurd rfl hs
+  | ignore => simp only [pyEncode, firstBad_none C _ 0 (handled_encodable C hA _ s)]
+  | replace => simp only [pyEncode, firstBad_none C _ 0 (handled_encodable C hA _ s)]
+  | xmlcharrefreplace => simp only [pyEncode, firstBad_none C _ 0 (handled_encodable C hA _ s)]
+  | backslashreplace => simp only [pyEncode, firstBad_none C _ 0 (handled_encodable C hA _ s)]
+
+theorem handled_encodable_id (C : Codec) (h : Handler) (s : PStr) (hs : C.Encodable s) : handled C h s = s := by
+  induction s with
+  | nil => rfl
+  | cons c cs ih =>
+    have hc : C.canEnc c = true := hs c (by simp)
+    have := ih (fun x hx => hs x (by simp [hx]))
+    simp only [handled, List.flatMap_cons, hc, if_true] at this ⊢
+    simp [this]
 
 /-! ### the reader on the writer's image -/
 
@@ -326,6 +427,27 @@ theorem tableCodec_roundTrip (tbl : List Nat) : (tableCodec tbl).RoundTrip := by
   show tbl.getD (tbl.idxOf c) undef = c
   exact (key c hc).2.1
 
+/-- efficient checkers for a decode table: every ASCII code point is in it / sits at its own index -/
+def tableAsciiOK (tbl : List Nat) : Bool := (List.range 128).all (fun c => tbl.contains c)
+def tableAsciiAt (tbl : List Nat) : Bool := (List.range 128).all (fun c => tbl.idxOf c == c)
+
+theorem tableCodec_asciiOK (tbl : List Nat) (h : tableAsciiOK tbl = true) : (tableCodec tbl).AsciiOK := by
+  intro c hc
+  have := List.all_eq_true.mp h c (List.mem_range.mpr hc)
+  simp only [tableCodec, Bool.and_eq_true, decide_eq_true_eq]
+  exact ⟨by simp [undef]; omega, this⟩
+
+theorem tableCodec_asciiCompat (tbl : List Nat) (h : tableAsciiAt tbl = true) : (tableCodec tbl).AsciiCompat := by
+  intro a s ha _
+  show (a ++ s).map (fun c => tbl.idxOf c) = a ++ s.map (fun c => tbl.idxOf c)
+  rw [List.map_append]
+  congr 1
+  conv => rhs; rw [← List.map_id a]
+  apply List.map_congr_left
+  intro c hc
+  have := List.all_eq_true.mp h c (List.mem_range.mpr (ha c hc))
+  simpa using this
+
 /-! ### predicates of the losslessness statement, table facts, reader rules on safe numbers -/
 
 def isC1 (c : Nat) : Bool := 128 ≤ c && c ≤ 159
@@ -420,6 +542,7 @@ theorem lookup_subCharsetStep (k : PStr) (hk : k ≠ ofS "charset") (l : List (P
     lookupAttr k (subCharsetStep l) = lookupAttr k l := by
   unfold subCharsetStep
   split
+  · rfl
   · exact lookup_setAttr_ne k _ _ hk l
   · rfl
 
@@ -427,10 +550,41 @@ theorem lookup_subContentStep (k : PStr) (hk : k ≠ ofS "content") (l : List (P
     lookupAttr k (subContentStep l) = lookupAttr k l := by
   unfold subContentStep
   split
+  · rfl
   · split
     · exact lookup_setAttr_ne k _ _ hk l
     · rfl
   · rfl
+
+theorem subCharsetStep_some (attrs : List (PStr × AttrVal)) (old : AttrVal)
+    (h : lookupAttr (ofS "charset") attrs = some old) (hn : old ≠ .novalue) :
+    subCharsetStep attrs = setAttr (ofS "charset") (.charsetMeta old.str) attrs := by
+  unfold subCharsetStep
+  rw [h]
+  cases old <;> first | rfl | exact absurd rfl hn
+
+theorem subCharsetStep_none (attrs : List (PStr × AttrVal)) (h : lookupAttr (ofS "charset") attrs = none) :
+    subCharsetStep attrs = attrs := by
+  unfold subCharsetStep; rw [h]
+
+theorem subContentStep_some (attrs : List (PStr × AttrVal)) (ct he : AttrVal)
+    (h1 : lookupAttr (ofS "content") attrs = some ct) (hn : ct ≠ .novalue)
+    (h2 : lookupAttr (ofS "http-equiv") attrs = some he) (h3 : isContentType he = true) :
+    subContentStep attrs = setAttr (ofS "content") (.contentMeta ct.str) attrs := by
+  unfold subContentStep
+  rw [h1, h2]
+  cases ct <;> first | exact absurd rfl hn | (simp only [h3, if_true])
+
+theorem subContentStep_no_content (attrs : List (PStr × AttrVal)) (h : lookupAttr (ofS "content") attrs = none) :
+    subContentStep attrs = attrs := by
+  unfold subContentStep; rw [h]
+
+theorem subContentStep_no_equiv (attrs : List (PStr × AttrVal)) (h : lookupAttr (ofS "http-equiv") attrs = none) :
+    subContentStep attrs = attrs := by
+  unfold subContentStep; rw [h]
+  cases lookupAttr (ofS "content") attrs with
+  | none => rfl
+  | some ct => cases ct <;> rfl
 
 theorem subGo_drop (repl : PStr → PStr) : ∀ (l : PStr) (b : Bool), subGo repl l.length b l = [] := by
   intro l
@@ -465,7 +619,7 @@ def MimeLike (m : PStr) : Prop :=
 /-- the key `; charset=` is accepted by the live pattern, whatever follows (as long as the value does not begin with
     white space, which the tolerant pattern counts to the key) -/
 theorem key_accepted (old : PStr) (h : old.dropWhile isReSpace = old) : matchKey (ofS " charset=" ++ old) = some old := by
-  simp [matchKey, ofS, List.dropWhile, isReSpace, reWhitespace, charsetReSpaceTolerant, charsetReLiteral, matchClasses, h]
+  simp [matchKey, ofS, List.dropWhile, isReSpace, charsetReSpace, charsetReSpaceTolerant, charsetReLiteral, matchClasses, h]
 
 theorem matchClasses_head_none (cls : List Nat) (more : List (List Nat)) (c : Nat) (t : PStr)
     (h : cls.contains c = false) : matchClasses (cls :: more) (c :: t) = none := by
@@ -496,6 +650,76 @@ theorem ascii_prefix (e : PStr) (he : NameLike e) (lit : PStr) (hl : lit.all (fu
   · have := List.all_eq_true.mp hl c hc; simpa using this
   · exact (he c hc).1
   · simp at hc; omega
+
+/-! ### the finder skips a prefix in which the word `charset` does not occur -/
+
+/-- no occurrence of the word `charset` (ASCII case-insensitively) begins inside `pre`, given that `charset=` follows -/
+def quietDecl : PStr → Bool
+  | [] => true
+  | c :: cs => (lowerIs (ofS "charset") (c :: cs ++ ofS "charset=")).isNone && quietDecl cs
+
+theorem lowerIs_append (a X : PStr) (h : 7 ≤ a.length) (hn : lowerIs (ofS "charset") a = none) :
+    lowerIs (ofS "charset") (a ++ X) = none := by
+  have hl : (ofS "charset").length = 7 := by decide
+  unfold lowerIs at hn ⊢
+  rw [hl] at hn ⊢
+  rw [List.take_append_of_le_length h]
+  split at hn
+  · cases hn
+  · rename_i hne; rw [if_neg hne]
+
+theorem findDeclared_quiet : ∀ (pre Y : PStr), quietDecl pre = true →
+    findDeclared (pre ++ (ofS "charset=" ++ Y)) = findDeclared (ofS "charset=" ++ Y) := by
+  intro pre
+  induction pre with
+  | nil => intro Y _; rfl
+  | cons c cs ih =>
+    intro Y h
+    simp only [quietDecl, Bool.and_eq_true, Option.isNone_iff_eq_none] at h
+    have hl : lowerIs (ofS "charset") (c :: cs ++ (ofS "charset=" ++ Y)) = none := by
+      have := lowerIs_append (c :: cs ++ ofS "charset=") Y (by simp [ofS]) h.1
+      simpa using this
+    simp only [List.cons_append] at hl ⊢
+    rw [findDeclared, declAt, hl]
+    exact ih Y h.2
+
+theorem findDeclared_key_quoted (e rest : PStr) (he : NameLike e) :
+    findDeclared (ofS "charset=" ++ (34 :: (e ++ 34 :: rest))) = some e := by
+  have e1 : ofS "charset=" ++ (34 :: (e ++ 34 :: rest)) = 99 :: 104 :: 97 :: 114 :: 115 :: 101 :: 116 :: 61 :: 34 :: (e ++ 34 :: rest) := by
+    simp [ofS]
+  rw [e1]
+  have step : ∀ X, findDeclared (99 :: 104 :: 97 :: 114 :: 115 :: 101 :: 116 :: 61 :: 34 :: X)
+      = match declValue X with | some v => some v | none => findDeclared (104 :: 97 :: 114 :: 115 :: 101 :: 116 :: 61 :: 34 :: X) := by
+    intro X; rfl
+  rw [step, declValue_name e _ he]
+
+theorem findDeclared_key_bare (c : Nat) (cs rest : PStr) (he : NameLike (c :: cs)) :
+    findDeclared (ofS "charset=" ++ (c :: cs ++ 34 :: rest)) = some (c :: cs) := by
+  have hcn := he c (by simp)
+  have e1 : ofS "charset=" ++ (c :: cs ++ 34 :: rest) = 99 :: 104 :: 97 :: 114 :: 115 :: 101 :: 116 :: 61 :: (c :: (cs ++ 34 :: rest)) := by
+    simp [ofS]
+  rw [e1]
+  have step : ∀ X, findDeclared (99 :: 104 :: 97 :: 114 :: 115 :: 101 :: 116 :: 61 :: X)
+      = match declAfterKey (61 :: X) with | some v => some v | none => findDeclared (104 :: 97 :: 114 :: 115 :: 101 :: 116 :: 61 :: X) := by
+    intro X; rfl
+  rw [step]
+  have hq : stripQuote (c :: (cs ++ 34 :: rest)) = c :: (cs ++ 34 :: rest) := by
+    have h34 : c ≠ 34 := by intro h; subst h; simp [isTerminator] at hcn
+    have h39 : c ≠ 39 := by intro h; subst h; simp [isTerminator] at hcn
+    unfold stripQuote
+    split
+    · rename_i heq; cases heq; exact absurd rfl h34
+    · rename_i heq; cases heq; exact absurd rfl h39
+    · rfl
+  have hk : declAfterKey (61 :: c :: (cs ++ 34 :: rest)) = some (c :: cs) := by
+    have hd1 : (61 :: c :: (cs ++ 34 :: rest)).dropWhile isAsciiSpace = 61 :: c :: (cs ++ 34 :: rest) := by rfl
+    have hd2 : (c :: (cs ++ 34 :: rest)).dropWhile isAsciiSpace = c :: (cs ++ 34 :: rest) := by
+      simp [List.dropWhile, hcn.2.2]
+    unfold declAfterKey
+    rw [hd1]
+    simp only [hd2, hq]
+    exact declValue_name (c :: cs) _ he
+  rw [hk]
 
 /-! ### the rewrite is literal: whatever the name is made of, it ends up verbatim in the result -/
 
